@@ -23,17 +23,19 @@ fn std_hash<T: Hash>(t: &T) -> u64 {
 pub struct Pool<T: Flavor> {
     pub flavor: &'static str,
     pub values: Vec<(GenericPurl<T>, String, Value)>, // value, canonical string, provenance
-    seen: HashMap<Obs, u8>,
+    seen: HashMap<u64, u8>,
 }
 
 impl<T: Flavor> Pool<T> {
     pub fn new(flavor: &'static str) -> Self {
         Pool { flavor, values: Vec::new(), seen: HashMap::new() }
     }
-    /// keep at most two instances per accessor view (so that values reached through different
-    /// sources are compared with each other, without flooding the pool)
+    /// keep at most two instances per *structure* (the Debug form shows the stored fields, not the
+    /// accessor view: two values that the accessors cannot tell apart but that are stored differently
+    /// are both kept), so that values reached through different sources are compared with each other
+    /// without flooding the pool
     pub fn add(&mut self, p: GenericPurl<T>, prov: impl FnOnce() -> Value) {
-        let o = observe(&p);
+        let o = h64(&format!("{:?}", p));
         let n = self.seen.entry(o).or_insert(0);
         if *n >= 2 {
             return;
